@@ -87,3 +87,79 @@ proof!(16, fn c05_ev_id_out_of_range() {
     assert!(listener.try_wait(|_| n += 1).unwrap() == 0 && n == 0, "c05: refused notification delivered something");
     canaries();
 });
+
+// ------------------------------------------------------------------------------------------
+// notifications racing a wait (seams of the hand-shake, no scheduler needed)
+// ------------------------------------------------------------------------------------------
+
+pub static mut RACE_NOTIFIER: usize = 1;
+pub static mut RACE_ID_A: usize = 7;
+pub static mut RACE_SENT: u8 = 100; // bit mask of successfully notified ids + 100... kept as plain mask below
+pub static mut RACE_MASK: u8 = 0x80; // bit 7 is a sentinel so that the initialiser is not all-zero
+
+fn race_notify(id: usize) {
+    unsafe {
+        let n = &*(RACE_NOTIFIER as *const EvNotifier);
+        if n.notify(EventId::new(id)).is_ok() {
+            RACE_MASK |= 1 << id;
+        }
+    }
+}
+
+fn hook_notify_a() {
+    unsafe { race_notify(RACE_ID_A) }
+}
+
+/// The listener has failed its state check and enters the (blocking) wait call; there a first
+/// notification arrives and wakes it.  While the listener hands the collected ids to the user
+/// callback a second notification (id symbolic: before, at or after the id being delivered)
+/// completes.  Then the listener waits again.
+///  * every successfully notified id is delivered by the first or the second wait;
+///  * the second wait never "would block" while a successful notification is undelivered;
+///  * nothing is delivered that was not notified.
+proof!(16, fn c05_ev_notify_races_wait() {
+    let (listener, notifier) = mk();
+    unsafe {
+        RACE_NOTIFIER = &notifier as *const _ as usize;
+        let a: usize = kani::any();
+        kani::assume(a <= MAXID);
+        let b: usize = kani::any();
+        kani::assume(b <= MAXID);
+        RACE_ID_A = a;
+        // the notification that wakes the sleeping listener arrives inside the wait call, or
+        // (symbolically) at the start of the drain
+        let seam: u8 = kani::any();
+        kani::assume(seam == 1 || seam == 3);
+        KTRIG_HOOK = hook_notify_a;
+        KTRIG_HOOK_AT = seam;
+        let mut d1: u8 = 0;
+        let mut second_sent = false;
+        let r = listener.blocking_wait(|act| {
+            d1 |= 1 << act.id.as_value();
+            if !second_sent {
+                second_sent = true;
+                race_notify(b);
+            }
+        });
+        KTRIG_HOOK_AT = 9;
+        assert!(r.is_ok());
+        assert!(KTRIG_HOOK_FIRED == 1, "harness: the racing notification did not run");
+        let sent = RACE_MASK & 0x7F;
+        assert!(d1 & !sent == 0, "c05: delivered an id that was never notified (phantom)");
+        // second wait
+        let pending = sent & !d1;
+        let wb = would_block();
+        let mut d2: u8 = 0;
+        let r2 = listener.blocking_wait(|act| d2 |= 1 << act.id.as_value());
+        assert!(r2.is_ok());
+        assert!(d2 & !sent == 0, "c05: delivered an id that was never notified (phantom)");
+        if pending != 0 {
+            assert!(would_block() == wb, "c05: the listener would have slept although a successful notification was undelivered (lost wake-up)");
+        }
+        // an id notified while it was being delivered may legitimately be delivered once more
+        assert!(pending & !d2 == 0, "c05: a successful notification was never delivered (lost)");
+        kani::cover!(seam == 1 && second_sent && b < a, "second notification for an id the collector had already passed");
+        kani::cover!(pending != 0, "something was left for the second wait");
+    }
+    canaries();
+});
